@@ -1,2 +1,2 @@
 (* every entry point exposed to the harness *)
-From MDW Require Export AbiC16 AbiC13 AbiC09 AbiC12 AbiC20 AbiC06 AbiC14 AbiCtx AbiC15 AbiTl AbiC11 AbiC03 AbiC17 AbiC18 AbiC08 AbiC02 AbiC01.
+From MDW Require Export AbiC16 AbiC13 AbiC09 AbiC12 AbiC20 AbiC06 AbiC14 AbiCtx AbiC15 AbiTl AbiC11 AbiC03 AbiC17 AbiC18 AbiC08 AbiC02 AbiC01 AbiImage.
